@@ -169,6 +169,22 @@ def check(ctx, clean, dirty, replay):
         ctx.disagreement("C19.model.prune", f"model: {ans}", replay)
     elif ans["tree"] != got or ans["empty"] != bool(ret):
         ctx.disagreement("C19.model.prune", "Lean prune and the implementation differ", replay)
+    # the code's own criterion on the executable hierarchy: HNet.emptyRec is the return value of prune(), HNet.keepSet the
+    # top-level children it keeps (C19_removed_presents_no_pin / C19_kept_set_closed / C19_kept_level_behaves are about these)
+    ans_e = None
+    if dirty.kind != "leaf" and hier.count_placements(dirty) <= 10:
+        ans_e = ctx.driver.ask({"op": "hempty", "tree": hier.tree_json_any(dirty)})
+        if "empty" not in ans_e or "keep" not in ans_e:
+            ctx.disagreement("C19.model.hempty", f"model: {str(ans_e)[:80]}", replay)
+            ans_e = None
+        else:
+            ctx.tag("model:hempty", "hempty:empty" if ans_e["empty"] else "hempty:kept")
+            if bool(ans_e["empty"]) != bool(ret):
+                ctx.disagreement("C19.model.hempty", f"prune() returned {ret}, HNet.emptyRec of the description is {ans_e['empty']}", replay)
+            if len(ans_e["keep"]) != len(got.get("s", [])):
+                ctx.disagreement("C19.model.hempty", f"prune() kept {len(got.get('s', []))} top-level placements, HNet.keepSet keeps positions {ans_e['keep']}", replay)
+            if ans_e.get("wftree") and not set(ans_e["live"]) <= set(ans_e["keep"]):
+                ctx.disagreement("C19.model.hempty", f"a child with pins is not kept: live {ans_e['live']}, kept {ans_e['keep']}", replay)
     if sk_dead(sk):
         return True
     # a second prune after edits *below* the top level: dead branches placed into surviving nested solvers (nothing is added
@@ -224,6 +240,15 @@ def check(ctx, clean, dirty, replay):
             ctx.tag("model:hprune-not-solvable-one-level")
         else:
             ctx.disagreement("C19.model.hprune", f"model: {str(ans)[:80]}", replay)
+    if ans_e is not None and "T" in ans_e:
+        if sorted(ans_e["pins"]) != sorted(names):
+            ctx.disagreement("C19.model.hempty", f"the level the model keeps exposes {sorted(ans_e['pins'])}, the pruned solver {sorted(names)}", replay)
+        elif names:
+            o_ = [ans_e["pins"].index(x) for x in names]
+            Tk = gen.json_mat_np([z for row in ans_e["T"] for z in row], len(names), len(names))[np.ix_(o_, o_)]
+            ctx.tag("model:hempty-solved")
+            if float(np.max(np.abs(Tk - T))) > 1e-9 * max(1.0, cond):
+                ctx.disagreement("C19.model.hempty", "the model's solve of the level prune() keeps differs from the code's solve after prune()", replay)
     err = float(np.max(np.abs(T - Tref))) if T.size else 0.0
     if err > 1e-9 * max(1.0, cond):
         ctx.violation("C19:matrix-changed", f"pruned solver differs from the clean build by {err:.3e}", replay)
